@@ -536,7 +536,12 @@ func TestVerifC08Filter(t *testing.T) {
 	c08FilterPart(env, "filter-metrics-expiry",
 		"every combination of metric state {fresh, expired, missing, no status, no usage section} x FilterExpiredNodeMetrics {nil,false,true} x EnableScheduleWhenNodeMetricsExpired {nil,false,true} x expiration configured {no,yes} x profile x scenario x target {0, thr, 102%} x incoming pod",
 		[]c08FDim{
-			idx("metric", 5, func(c *c08FCase, i int) { c.Metric = i; c.Thr = c08Vec{65, 70}; c.Alloc = 1; c.Factors = c08Vec{85, 70} }),
+			idx("metric", 5, func(c *c08FCase, i int) {
+				c.Metric = i
+				c.Thr = c08Vec{65, 70}
+				c.Alloc = 1
+				c.Factors = c08Vec{85, 70}
+			}),
 			idx("filterExpired", 3, func(c *c08FCase, i int) { c.F = i }),
 			idx("enableWhenExpired", 3, func(c *c08FCase, i int) { c.Ena = i }),
 			idx("expirationSet", 2, func(c *c08FCase, i int) { c.ExpSet = i == 1 }),
